@@ -45,7 +45,8 @@ def tree_levels(graph):
     for k, (leaves, lvl, kd) in info.items():
         if kd != "aggregate":
             continue
-        rank = {leaf: i + 1 for i, leaf in enumerate(leaves)}
+        # leaves are numbered by their POSITION among the blocks (key order), not by the order the root lists them
+        rank = {leaf: i + 1 for i, leaf in enumerate(sorted(set(leaves), key=lambda kk: tuple(kk[1:])))}
         # nodes below this aggregate
         closure, stack = set(), [k]
         while stack:
@@ -59,7 +60,7 @@ def tree_levels(graph):
             if x in info and info[x][2] in ("combine", "aggregate"):
                 levels.setdefault(info[x][1], []).append([rank[leaf] for leaf in info[x][0]])
         lv = [sorted(levels[i], key=lambda s: s[0] if s else 0) for i in sorted(levels)]
-        trees.append({"n": len(leaves), "levels": lv})
+        trees.append({"n": len(set(leaves)), "levels": lv})
     return trees
 
 
@@ -118,6 +119,8 @@ def run_sched_case(case: dict) -> dict:
 
     warnings.filterwarnings("ignore")
     rec = {"case": case}
+    if case.get("scan"):
+        return run_sched_scan_case(case)
     try:
         result, groups, kind = build(case)
     except Exception as e:  # noqa: BLE001
@@ -189,6 +192,50 @@ def run_sched_case(case: dict) -> dict:
         rec["out"] = project_out(case["func"], sync_res)
     except ProjectionError as e:
         rec.update(exc="ProjectionError", msg=str(e))
+    except Exception as e:  # noqa: BLE001
+        import traceback
+
+        rec.update(exc=type(e).__name__, msg=str(e)[:300], phase="compute", tb=traceback.format_exc()[-800:])
+    return rec
+
+
+def run_sched_scan_case(case: dict) -> dict:
+    """the scan flavour: TLC-generated schedules (RunTask / Lose / re-execution) replayed on the real
+    dask_groupby_scan graph, threaded runs, final values for TraceScan"""
+    import dask
+
+    from .project import pv_out
+    from .scancase import build_scan
+
+    rec = {"case": case}
+    try:
+        result = build_scan(case)
+    except Exception as e:  # noqa: BLE001
+        rec.update(exc=type(e).__name__, msg=str(e)[:300], phase="call")
+        return rec
+    if not hasattr(result, "dask"):
+        rec["notlazy"] = True
+        return rec
+    try:
+        graph = sched.graph_of(result)
+        outputs = list(dask.core.flatten(result.__dask_keys__()))
+        gjson, order_keys = sched.export_graph(graph, "__no_value_layer__", outputs, [], [[] for _ in outputs])
+        rec["ntasks"] = sum(1 for p in gjson["pre"] if not p)
+        rec["trees"] = []
+        sim = run_tlc_exec(gjson, "simulate", case.get("nsched", 6), case.get("order_seed", 0) + 1, maxlose=2)
+        rec["tlc"] = {"exhaustive": {}, "simulate": {k: v for k, v in sim.items() if k != "schedules"}}
+        first, mism, finals = {}, [], set()
+        for s in sim["schedules"]:
+            store, mm = sched.run_schedule(graph, order_keys, s, first)
+            mism += mm
+            finals.add(sched.digest([store[k] for k in outputs]))
+        rec["schedules_replayed"] = len(sim["schedules"])
+        rec["digest_mismatches"] = mism[:5]
+        rec["distinct_finals"] = len(finals)
+        sync_res = result.compute(scheduler="synchronous")
+        thr = [sched.digest(np.asarray(result.compute(scheduler="threads", num_workers=8))) for _ in range(case.get("nthreaded", 2))]
+        rec["threaded_equal"] = all(t == sched.digest(np.asarray(sync_res)) for t in thr)
+        rec["scan_out"] = [pv_out(x, 1e-9) for x in np.asarray(sync_res).reshape(-1)]
     except Exception as e:  # noqa: BLE001
         import traceback
 
